@@ -48,7 +48,7 @@ def cases(tier, seed):
             yield {"kind": "svgp", "strategy": strat, "dist": dist, "seed": rnd.randrange(10**6)}
         for wrapper in ("indep", "lmc"):
             yield {"kind": "svgp_mt", "wrapper": wrapper, "seed": rnd.randrange(10**6)}
-        for lk in ("gauss", "fixed", "fixed+learn", "mt"):
+        for lk in ("gauss", "fixed", "fixed+learn", "mt", "hetero", "hetero_indices"):
             yield {"kind": "noise", "lik": lk, "seed": rnd.randrange(10**6)}
         for over, obj, val in itertools.product(["double", "float"], ["float64", "float32"], [1e-2, 0.5]):
             yield {"kind": "dtype_floor", "override": over, "object": obj if obj == "float32" else "double", "value": val, "seed": rnd.randrange(10**6)}
@@ -420,7 +420,10 @@ def _mt_model(case, ctx, g):
         def __init__(s, X_, Y_, lik):
             super().__init__(X_, Y_, lik)
             s.mean_module = gpytorch.means.MultitaskMean(gpytorch.means.ConstantMean(), num_tasks=T)
-            s.covar_module = gpytorch.kernels.MultitaskKernel(gpytorch.kernels.MaternKernel(nu=2.5), num_tasks=T, rank=1)
+            base_ = gpytorch.kernels.MaternKernel(nu=2.5)
+            if case["seed"] % 2:
+                base_ = gpytorch.kernels.ScaleKernel(base_)  # (a data kernel whose variance is not 1)
+            s.covar_module = gpytorch.kernels.MultitaskKernel(base_, num_tasks=T, rank=1)
 
         def forward(s, x):
             return gpytorch.distributions.MultitaskMultivariateNormal(s.mean_module(x), s.covar_module(x))
@@ -451,6 +454,16 @@ def _mt_model(case, ctx, g):
         slack = 1e-8 * vh.abs().max() + (1e-6 if case["fast_pred_var"] else 1e-10)
         ctx.expect("nested_data_variance_monotone", bool((vq <= vh + slack).all()), f"multitask variance with all {n} points exceeds variance with the first 3: max excess {float((vq - vh).max()):.3e}", **kw)
         ctx.close("reported_variance_is_covariance_diagonal", vq, torch.diagonal(Cq).reshape(vq.shape).clamp_min(S.min_variance.value(torch.double)), (1e-8, 1e-8), cls="mt_model:variance")
+        # the PRIOR's variances (taken through the kernels' diagonal path while the joint covariance stays lazy) are the diagonal
+        # of the prior covariance; likewise the posterior's when the joint train+test covariance stays lazy (small eager limit)
+        with S.prior_mode(True):
+            pr_ = m(xs)
+            ctx.close("reported_variance_is_covariance_diagonal", pr_.variance, torch.diagonal(pr_.covariance_matrix).reshape(pr_.variance.shape), (1e-8, 1e-8), cls="mt_model:prior_variance")
+            ctx.close("reported_variance_is_covariance_diagonal", m.covar_module(xs, diag=True).reshape(-1), torch.diagonal(m.covar_module(xs).to_dense()), (1e-10, 1e-10), cls="mt_model:kernel_diag")
+        with S.max_eager_kernel_size(1):
+            m.prediction_strategy = None
+            pz_ = m(xs)
+            ctx.close("reported_variance_is_covariance_diagonal", pz_.variance, torch.diagonal(pz_.covariance_matrix).reshape(pz_.variance.shape).clamp_min(S.min_variance.value(torch.double)), (1e-8, 1e-8), cls="mt_model:lazy_joint_variance")
         for mv in (1e-10, 1e-3, 0.5):
             with S.min_variance(double_value=mv):
                 o = m(xs)
@@ -588,6 +601,22 @@ def _noise(case, ctx, g):
         lb = float(lik.noise_covar.raw_noise_constraint.lower_bound)
         add = torch.diagonal(lik(d).covariance_matrix - d.covariance_matrix)
         ctx.expect("noise_floor", bool((add >= lb * (1 - 1e-6)).all()) and bool((lik.noise >= lb * (1 - 1e-12)).all()), f"noise {float(add.min()):.3e} below the constraint's lower bound {lb}")
+    elif case["lik"] in ("hetero", "hetero_indices"):
+        # noise predicted by a GP (its posterior mean is negative here): what is added is the constrained value (>= 1e-4), with
+        # and without the documented `noise_indices` selection
+        Xh = util.randn(g, n, 2)
+        nm = util.GP(Xh, torch.full((n,), -3.0) + 0.1 * util.randn(g, n), L.GaussianLikelihood(), util.build_mean("constant", 2), util.build_kernel({"k": "rbf"}, 2))
+        idx = torch.arange(n).flip(0) if case["lik"] == "hetero_indices" else None
+        lik = L.gaussian_likelihood._GaussianLikelihoodBase(L.noise_models.HeteroskedasticNoise(nm, noise_indices=idx))
+        with torch.no_grad():
+            out = lik(d, Xh)
+            add = torch.diagonal(out.covariance_matrix - d.covariance_matrix)
+            nm.eval()
+            raw = nm(Xh).mean
+        ctx.expect("noise_floor", bool((add >= 1e-4 * (1 - 1e-6)).all()), f"heteroskedastic noise {float(add.min()):.3e} below the constraint's lower bound 1e-4 (raw noise-GP mean {float(raw.min()):.2f})", where=case["lik"])
+        ref = torch.nn.functional.softplus(raw if idx is None else raw[idx]) + 1e-4
+        ctx.close("noise_floor", add, ref, (1e-9, 1e-9), cls="hetero:" + case["lik"])
+        _psd_report(ctx, "marginal_psd", out.covariance_matrix, "marginal covariance under heteroskedastic noise", lik=case["lik"])
     elif case["lik"] in ("fixed", "fixed+learn"):
         tiny = torch.full((n,), 1e-12)
         lik = L.FixedNoiseGaussianLikelihood(noise=tiny, learn_additional_noise=case["lik"] == "fixed+learn")
